@@ -95,6 +95,19 @@ def _corpus():
                                     ('light', ('str', 'Strip'))], 'L', None),
                   [('print', ('call', 'deep', [num(2)])), ('action', 'on', [('light', v('L'))])]),
                  ('print', ('expr', ('bin', '+', num(100), ('call', 'deep', [num(2)]))))], pop))
+    # every edge between unit modes with a duration and a delay pending: the commands and waits
+    # before and after the switch carry the durations the source says
+    import itertools
+    for a, b, c in itertools.permutations(['logical', 'raw', 'rgb'], 3):
+        dur, tm = (1500, 2000) if a == 'raw' else (1.5, 2)
+        out.append(([('units', a), ('setreg', 'duration', num(dur)), ('setreg', 'time', num(tm)),
+                     ('action', 'set', [('light', ('str', 'Top'))]),
+                     ('units', b), ('action', 'set', [('light', ('str', 'Lamp'))]),
+                     ('action', 'on', [('group', ('str', 'Pole'))]), ('wait',),
+                     ('units', c), ('action', 'set', [('light', ('str', 'Middle'))]),
+                     ('action', 'off', 'all'), ('wait',),
+                     ('units', a), ('action', 'set', 'all'), ('print', ('reg', 'duration')),
+                     ('print', ('reg', 'time'))], pop))
     return out
 
 
